@@ -56,19 +56,22 @@ static std::string exec_case(const Args &a) {
         ST::case_sensitivity_t cs = a.get("ci") == "1" ? ST::case_insensitive : ST::case_sensitive;
         std::string sepb = parse_bytes(a.get("sep"));
         std::string out = "ok";
+        // the case-sensitive call is also made without the case argument (its documented default) and must agree
+        bool dflt_cs = a.get("ci") != "1";
+#define DFB(with_cs, dflt) (dflt_cs ? vh::same_as_default((with_cs), (dflt)) : (with_cs))
         const char *names[4] = {"bf", "af", "bl", "al"};
         for (int k = 0; k < 4; ++k) {
             std::string r;
             if (form == "char") {
                 char ch = sepb.empty() ? 0 : sepb[0];
-                r = observe([&] { return k == 0 ? s.before_first(ch, cs) : k == 1 ? s.after_first(ch, cs) : k == 2 ? s.before_last(ch, cs) : s.after_last(ch, cs); }, true);
+                r = observe([&] { return k == 0 ? DFB(s.before_first(ch, cs), s.before_first(ch)) : k == 1 ? DFB(s.after_first(ch, cs), s.after_first(ch)) : k == 2 ? DFB(s.before_last(ch, cs), s.before_last(ch)) : DFB(s.after_last(ch, cs), s.after_last(ch)); }, true);
             } else if (form == "cstr" || form == "null") {
                 CStr c(sepb);
                 const char *p = form == "null" ? nullptr : c.p;
-                r = observe([&] { return k == 0 ? s.before_first(p, cs) : k == 1 ? s.after_first(p, cs) : k == 2 ? s.before_last(p, cs) : s.after_last(p, cs); }, true);
+                r = observe([&] { return k == 0 ? DFB(s.before_first(p, cs), s.before_first(p)) : k == 1 ? DFB(s.after_first(p, cs), s.after_first(p)) : k == 2 ? DFB(s.before_last(p, cs), s.before_last(p)) : DFB(s.after_last(p, cs), s.after_last(p)); }, true);
             } else {
                 ST::string sep = raw_string(sepb);
-                r = observe([&] { return k == 0 ? s.before_first(sep, cs) : k == 1 ? s.after_first(sep, cs) : k == 2 ? s.before_last(sep, cs) : s.after_last(sep, cs); }, true);
+                r = observe([&] { return k == 0 ? DFB(s.before_first(sep, cs), s.before_first(sep)) : k == 1 ? DFB(s.after_first(sep, cs), s.after_first(sep)) : k == 2 ? DFB(s.before_last(sep, cs), s.before_last(sep)) : DFB(s.after_last(sep, cs), s.after_last(sep)); }, true);
             }
             out += std::string(" ") + names[k] + "=" + r;
         }
